@@ -74,6 +74,7 @@ class WriterWorld:
         ev.call(setter, [w, mode], {})
         self.mode = mode
         self.prior = W
+        self.orig = data
         return w, data
 
     def call(self, w, method, args):
@@ -86,3 +87,7 @@ class WriterWorld:
 
     def data_of(self, w):
         return w.d[self.buf_field]
+
+    def replaced(self, w):
+        """The writer no longer holds the buffer it started with (it adopted another object as its buffer)."""
+        return w.d.get(self.buf_field) is not self.orig
